@@ -152,6 +152,23 @@ def run_act(ctx, p):
             e2 = float(np.max(np.abs(back - P[:, :1]))) if back is not None else math.inf
             ctx.judge('laws', e2 <= TOL * mag, dict(sig, kind='inverse_of_sequence_does_not_undo'),
                       lambda: '%s (%d values): X.inv()[k] * (X * p)[:, k] differs from p by %.3g (allowed %.3g)' % (cname, M, e2, TOL * mag))
+    if M > 1 and hasattr(X, 'reverse'):
+        # the same object after documented list mutations (reverse; delete the first value and append it again): the columns follow
+        # the values the object holds NOW
+        try:
+            X.reverse()
+            g2 = np.asarray(X * arg, dtype=np.float64)
+            first = X[0]
+            del X[0]
+            X.append(first)
+            g3 = np.asarray(X * arg, dtype=np.float64)
+            w2 = want[:, ::-1]
+            w3 = np.hstack([w2[:, 1:], w2[:, :1]])
+            e4 = max(float(np.max(np.abs(g2 - w2))) if g2.shape == w2.shape else math.inf, float(np.max(np.abs(g3 - w3))) if g3.shape == w3.shape else math.inf)
+            ctx.judge('action', e4 <= TOL * mag, dict(sig, kind='stale_after_list_mutation'),
+                      lambda: '%s (%d values) * p after reverse() / del + append: columns differ from the current values by %.3g' % (cname, M, e4))
+        except Exception as e:
+            ctx.bad('action', dict(sig, kind='raised', exc=type(e).__name__, where=_where(e)), '%s (%d values): product after reverse() / del / append raised %r' % (cname, M, e))
     ctx.cell('act', cname, sig['form'], 'N=%d' % N if form == 'array2d' else 'vec', 'M=%d' % M)
     if ok and not all(np.allclose(m, np.eye(len(m))) for m in mats) and np.any(P != 0):
         ctx.nontrivial(cname, form, N, M, [np.round(np.asarray(m), 6).tolist() for m in mats], np.round(P, 6).tolist())
@@ -223,7 +240,8 @@ def run_laws(ctx, p):
         if abs(a) > 1e-3 * scale:       # well-conditioned frame only
             # (each transformed difference vector carries the rounding of the transformed points, a few eps of the data magnitude:
             #  relative to a short difference vector far from the origin that is not small)
-            slack = sum(8 * np.finfo(float).eps * magnitude(P, Q, tA) / np.linalg.norm(DP[:, i]) for i in range(d))
+            # and the determinant of a nearly flat frame amplifies the relative error of its columns by scale / |det| (up to 1e3 here)
+            slack = sum(8 * np.finfo(float).eps * magnitude(P, Q, tA) / np.linalg.norm(DP[:, i]) for i in range(d)) * scale / abs(a)
             ctx.judge('laws', a * b > 0 and abs(a - b) <= (1e-6 + slack) * abs(a), dict(sig, kind='handedness'),
                       lambda: 'orientation (signed volume) changes from %g to %g under %s' % (a, b, cname))
     ctx.cell('laws', cname)
@@ -418,15 +436,22 @@ def run(ctx):
         rigid = cname in ('SE2', 'SE3', 'UnitDualQuaternion')
         multi = cname != 'UnitDualQuaternion' and rng.random() < 0.3
         M = int(rng.integers(2, 6)) if multi else 1
+        if multi and rng.random() < 0.04:
+            M = [16, 17, 64, 100][rng.integers(4)]          # many pose values (a batch path would show here)
         if M > 1 or cname == 'UnitDualQuaternion':
             form = gen.FORMS[rng.integers(5)]
             N = 1
         else:
             form = gen.FORMS[rng.integers(5)] if rng.random() < 0.5 else 'array2d'
             N = 1 if form != 'array2d' else (d if rng.random() < 0.3 else int(rng.integers(1, 8)))
+            if form == 'array2d' and rng.random() < 0.03:
+                N = [64, 100, 1000][rng.integers(3)]          # many points
         if cname == 'UnitDualQuaternion':
             form = ['list', 'tuple', 'array'][rng.integers(3)]
         p = dict(cls=cname, mats=pose_mats(rng, d, M, rigid), form=form, P=points(rng, d, N))
+        if form == 'array2d' and N == d and rng.random() < 0.3:
+            # d points whose coordinates happen to form the identity / a rotation matrix (a frame's axes as points): still points
+            p['P'] = np.eye(d) if rng.random() < 0.4 else (gen.so3(rng) if d == 3 else gen.so2(rng))
         if form in ('array', 'row', 'col', 'array2d') and rng.random() < 0.3:
             p['layout'] = gen.LAYOUTS[rng.integers(4)]
         drive(RUNNERS, ctx, 'act', p)
